@@ -130,6 +130,9 @@ def gen_strings(rng, n):
     for l_ in lits:
         out.append(l_ + " m"); out.append(l_ + "m"); out.append(l_ + " " + rng.choice(["kg m/s^2", "s⁻¹", "K", "ft."]))
     out += lits + [l_ + "/s" for l_ in lits[::3]] + ["m/" + l_ for l_ in lits[::5]] + ["m*" + l_ for l_ in lits[::7]] + ["5 " + l_ for l_ in lits[::2]]
+    # line breaks between, before and after tokens; leading zeros; brackets that do not balance
+    out += ["5\nm", "\nm\n", "\nkm\n", "5\nkm", "m\n/s", "m\r\n s", " \n m", "\n\n5 m", "kg\n\nm", "5 m\n", "007 m", "-01 Ω", "+00012 m/s", "00 m", "00.5 m", "01e5 m", "0 m",
+            "m(", "hp(", ")", "5 km/(s", "s/hp(", "((", "m)", "5 (m", "a(b", "hp(E)(", "m^", "m ^ 2", "5 m^ s", "5 km/s ^-", "m+", "m⁻ s"]
     out += ["", " ", "m", "m/s", "m//s", "m/s/s", "5", "5 5 m", "m^", "m^-", "m⁻", "5 m/", "/m", "*m", "m*", "m⋅⋅s", "m ² s", "1/s", "m^2^3", "5e m", "m²", "m s"]
     return out
 
